@@ -90,6 +90,35 @@ async fn scenario(mon: &Monitor, rng: &mut Rng, realtime: bool) {
         });
     }
 
+    // served inbound requests: a stranger floods one node with requests its handler refuses
+    // (oversize values) or cannot decode, and with plain pings; every handler must finish and
+    // give its concurrency permit back
+    let flood_target = if rng.chance(0.5) { Some(rng.usize_below(n)) } else { None };
+    let permits_before: Vec<usize> = w.nodes.iter().map(|nd| nd.mgr.verif_handler_permits()).collect();
+    if let Some(t) = flood_target {
+        let w2 = w.clone();
+        let count = rng.urange(20, 260);
+        let stranger = rng.arr32();
+        let seed = rng.next_u64();
+        tokio::spawn(async move {
+            let mut r = Rng::new(seed);
+            let sh = hex::encode(stranger);
+            for i in 0..count {
+                let op = match r.below(3) {
+                    0 => saorsa_core::dht_network_manager::DhtNetworkOperation::Put { key: r.arr32(), value: vec![9u8; 513 + r.usize_below(80)] },
+                    1 => saorsa_core::dht_network_manager::DhtNetworkOperation::FindNode { key: r.arr32() },
+                    _ => saorsa_core::dht_network_manager::DhtNetworkOperation::Ping,
+                };
+                let mut f = dht_request_frame(&sh, &format!("flood-{i}"), &w2.nodes[t].tid_hex, op);
+                if r.chance(0.2) {
+                    let cut = r.usize_below(f.len().max(1));
+                    f.truncate(cut.max(8));
+                }
+                w2.hub.inject(stranger, &w2.nodes[t].tid_hex, f, Duration::from_micros(r.range(0, 1_500_000)));
+            }
+        });
+    }
+
     let recs: Arc<parking_lot::Mutex<Vec<OpRec>>> = Arc::new(parking_lot::Mutex::new(Vec::new()));
     let mut handles = Vec::new();
     for node in 0..n {
@@ -216,6 +245,38 @@ async fn scenario(mon: &Monitor, rng: &mut Rng, realtime: bool) {
             mon.sample(ctx(json!({"frames": frames.len(), "stop_virtual_ms": t1.map(|t| (t - t0).as_millis() as u64), "peers": peers})));
         }
     }
+    // at quiescence every running node has all its handler permits back and still serves a request
+    settle(REQ_TO * 2).await;
+    for (i, nd) in w.nodes.iter().enumerate() {
+        if Some(i) == stop_node {
+            continue;
+        }
+        mon.eval();
+        let now = nd.mgr.verif_handler_permits();
+        if now != permits_before[i] {
+            mon.violation(
+                "inbound/handler-permits-not-returned-at-quiescence",
+                ctx(json!({"node": i, "before": permits_before[i], "after": now, "flooded": flood_target == Some(i)})),
+            );
+        }
+    }
+    if !realtime {
+        // a healthy peer pings every running, unsilenced node: it must get an answer
+        let healthy: Vec<usize> = (0..n).filter(|i| Some(*i) != stop_node && w.hub.fault_of(&w.nodes[*i].tid_hex).is_some_and(|f| f.inbound == DeliverFault::Deliver && f.outbound == DeliverFault::Deliver && f.connect == ConnectFault::Accept)).collect();
+        if healthy.len() >= 2 {
+            let a = healthy[0];
+            for &b in &healthy[1..] {
+                let _ = w.nodes[a].mgr.connect_to_peer(&w.nodes[b].addr.to_string()).await;
+                mon.eval();
+                let r = tokio::time::timeout(REQ_TO * 2, w.nodes[a].mgr.ping(&w.nodes[b].tid_hex)).await;
+                if !matches!(r, Ok(Ok(_))) {
+                    mon.violation("inbound/node-stopped-serving-requests", ctx(json!({"node": b, "flooded": flood_target == Some(b), "result": format!("{:?}", r.map(|x| x.map(|_| ()).map_err(|e| e.to_string())))})));
+                    break;
+                }
+            }
+        }
+    }
+
     // shut the rest down (bounded) so the runtime drops cleanly
     for (i, nd) in w.nodes.iter().enumerate() {
         if Some(i) != stop_node {
